@@ -855,8 +855,8 @@ func verifC39GenMutations(rng *vh.Rng, o *verifC39Op, c *verifC39Case, coins []u
 }
 
 func verifC39Generate(emit func(op string)) {
-	rng := vh.NewRng(vh.Seed() ^ 0xC39)
-	ncases := vh.Budget(70, 2500)
+	rng := vh.NewRng(VerifC39MixSeed(vh.Seed(), 0xC39))
+	ncases := vh.Budget(70, 6000)
 	for i := 0; i < ncases; i++ {
 		o := verifC39GenCase(rng, i)
 		o.caseKey = verifC39Parse(o.caseLine()).caseKey
@@ -922,6 +922,15 @@ func VerifC39CoinsFor(partcom crypto.GenericDigest, lnpw uint64, sigcom crypto.G
 }
 
 func VerifC39Join(xs []uint64) string { return verifC39Join(xs) }
+
+// VerifC39MixSeed scatters VERIF_SEED: vh.NewRng(k) and vh.NewRng(k+d) are the SAME splitmix stream shifted by d draws
+// (they re-synchronise as soon as the generators have consumed d draws more/less), so nearby seeds must be mixed first.
+func VerifC39MixSeed(seed, salt uint64) uint64 {
+	z := (seed+1)*0xD6E8FEB86659FD93 ^ salt*0xA0761D6478BD642F
+	z = (z ^ (z >> 32)) * 0xD6E8FEB86659FD93
+	z = (z ^ (z >> 29)) * 0x94D049BB133111EB
+	return z ^ (z >> 32)
+}
 
 // VerifC39GenLedgerCase: a case whose round is a multiple of the key lifetime and whose proven weight is the ledger's
 // total·threshold/2^32 for `total` = the weight of ALL participants (+ extra).
